@@ -924,3 +924,48 @@ def bind_rename_findings(F):
             lens.add(st["rv"]["op"].replace("WithOverflow", ""))
     out.append(("Bind::rename:length", {"Add", "Sub"} <= lens, "the new length is derived from the old one by adding/subtracting the name lengths", "Bind::rename length arithmetic changed: %s" % sorted(lens)))
     return out
+
+
+
+def completed_request_release_findings(F):
+    """`transaction mode`: once a request is complete and no transaction (or COPY) is open, the server goes back to the pool before the client's next message is read.
+    In the transaction loop of Client::handle the arms that complete a request - Query and Sync - are left towards the next read of a client message only across
+    in_transaction()==true, in_copy_mode()==true or transaction_mode==false; every other way out of them leaves the loop (release, gate, idle loop). That covers the
+    ways that answer the client without a round trip (a plugin's verdict, a batch answered from the statement cache). Returns [(key, ok, good, bad)] or None"""
+    H = "pgcat::client::Client::handle::{closure#0}"
+    h = F.body(H)
+    if h is None:
+        return None
+    claim = h.calls("pgcat::server::Server::claim")
+    rm = [c.block for c in h.calls("pgcat::messages::read_message")]
+    if not claim or not rm:
+        return None
+    sws = switches(h)
+    codesw = [sw for sw in sws if sw.ty in ("char", "u8", "u32") and len(sw.targets) >= 6 and h.dominates(claim[0].block, sw.block)]
+    if not codesw:
+        return None
+    csw = max(codesw, key=lambda sw: len(sw.targets))
+    arms = {chr(v): t for v, t in csw.targets if 0 < v < 128}
+    inT, _inF, _ = call_bool_edges(h, "pgcat::server::Server::in_transaction", switches_cache=sws)
+    cpT, _cpF, _ = call_bool_edges(h, "pgcat::server::Server::in_copy_mode", switches_cache=sws)
+    _tmT, tmF = field_bool_edges(h, "transaction_mode", sws)
+    inner_rm = [b_ for b_ in rm if h.dominates(claim[0].block, b_)]
+    # the wait for the first byte (fill_buf under the idle timeout) sits in front of read_message: take the loop head of the transaction loop as the target too
+    heads = [hd for hd in loop_headers(h) if any(b_ in natural_loop(h, hd) for b_ in inner_rm) and h.dominates(claim[0].block, hd)]
+    targets = set(inner_rm) | ({min(heads)} if heads else set())
+    if not heads:
+        return None
+    inner = natural_loop(h, min(heads))
+    outside = [b_ for b_ in range(h.nblocks) if b_ not in inner]   # leaving the transaction loop is the release
+    out = []
+    for code, nm in (("Q", "Query"), ("S", "Sync")):
+        if code not in arms:
+            out.append(("request-complete=>released:" + nm, False, "", "no arm for %s in the transaction loop" % nm))
+            continue
+        wit = h.uncrossed_path([arms[code]], targets, edges=set(inT) | set(cpT) | set(tmF), blocks=outside)
+        out.append(("request-complete=>released:" + nm, wit is None,
+                    "every way from the %s arm back to the next client message crosses in_transaction()==true, in_copy_mode()==true or transaction_mode==false" % nm,
+                    "the %s arm can go back to waiting for the client's next message without having looked at the server's transaction state (%s): a request that pgcat answers itself - a plugin's verdict, "
+                    "a batch served from the statement cache - leaves the client idle, outside any transaction, with the server still checked out: nobody else can use it, the client's next transaction "
+                    "starts without passing the PAUSE gate, a shutdown does not reach the client" % (nm, h.describe_path(wit) if wit else "")))
+    return out
